@@ -3,6 +3,8 @@ import contextlib
 import io
 import itertools
 
+import numpy as np
+
 from ..battery import call, _Raised
 
 N_RANDOM = {"quick": 200, "thorough": 5000}
@@ -161,6 +163,26 @@ def undirected_case(ctx, rng, idx, N):
                 k = canon(p, N)
                 got2[k] = got2.get(k, 0) + c
         ctx.check("C11:relabel-invariance", got2 == base, f"C11:order{N}:census-changed-under-relabelling-or-insertion-order", lambda: wit({"perm": pm, "got": sorted(got2.items()), "base": sorted(base.items())}))
+    if not big and idx % 4 == 0:
+        # the OBSERVED census does not depend on how many configuration-model rounds are requested next to it
+        # (runs_config_model > 0 is the default route; the null-model columns themselves are not part of the property)
+        from hypergraphx.motifs import compute_motifs
+
+        runs = rng.choice([1, 2])
+        np.random.seed(rng.randrange(2**31))
+        r3 = call(lambda: quiet(compute_motifs, h, order=N, runs_config_model=runs))
+        if isinstance(r3, _Raised):
+            ctx.check("C11:census", False, f"C11:compute_motifs(order={N},runs_config_model>0):raised:{type(r3.e).__name__}", lambda: wit(r3))
+        else:
+            got3 = {}
+            ok3 = True
+            for p, c in r3["observed"]:
+                if not isinstance(c, (int, np.integer)):
+                    ok3 = False
+                elif c:
+                    k = canon(p, N)
+                    got3[k] = got3.get(k, 0) + c
+            ctx.check("C11:census", ok3 and got3 == base, f"C11:order{N}:observed-census-differs-when-null-model-rounds-are-requested", lambda: wit({"runs": runs, "observed": r3["observed"][:8]}))
     if sum(base.values()) >= 2:
         ctx.distinct_add((N, tuple(sorted(map(lambda e: tuple(sorted(e)), edge_sets)))))
     # the same Hypergraph object after an in-place edit that keeps the numbers of nodes and hyperedges
@@ -240,6 +262,15 @@ def directed_case(ctx, rng, idx, N):
     rng.shuffle(rel)
     r2 = call(census, rel)
     ctx.check("C11:directed", not isinstance(r2, _Raised) and dict(r2) == dict(base), "C11:directed:census-changed-under-relabelling", lambda: wit((pm, r2, base)))
+    # the same hyperedges inserted in reversed order (same labels)
+    r2b = call(census, list(reversed(edges)))
+    ctx.check("C11:directed", not isinstance(r2b, _Raised) and dict(r2b) == dict(base), "C11:directed:census-changed-under-insertion-order", lambda: wit((r2b, base)))
+    if idx % 4 == 1:
+        runs = rng.choice([1, 2])
+        np.random.seed(rng.randrange(2**31))
+        r2c = call(lambda: quiet(compute_directed_motifs, hgx.DirectedHypergraph(edges), order=N, runs_config_model=runs))
+        ctx.check("C11:directed", not isinstance(r2c, _Raised) and dict(r2c["observed"]) == dict(base) and all(isinstance(c, (int, np.integer)) for _, c in r2c["observed"]),
+                  "C11:directed:observed-census-differs-when-null-model-rounds-are-requested", lambda: wit((runs, r2c if isinstance(r2c, _Raised) else r2c["observed"][:8])))
     # hyperedges larger than the order are ignored
     if n > N:
         big = rng.sample(nodes, N + 1)
